@@ -603,6 +603,34 @@ func (c *Ctx) c19RoundTrips(n int) {
 	}
 }
 
+// c19Nils: IsNil of values read from a script: true for nil and for the typed nils of every nillable kind, false
+// for empty but allocated containers, instances and scalars
+func (c *Ctx) c19Nils() {
+	vm := goat.New()
+	if _, err := vm.Eval(fstest.MapFS{}, "main", "type T struct {\n\tA int\n}\nvar p *T\nvar s []int\nvar ss [][]string\nvar m map[string]int\nvar mm map[int][]*T\nvar f func()\nvar a any\nvar e error\nq := &T{}\ns2 := []int{}\nm2 := map[string]int{}\ng := func() {}\nn := 0\nz := \"\"\nb := false\nx := 0.0\ns3 := s[:0]\ns4 := append(s, 1)[:0]\n"); err != nil {
+		c.Rep.Violate(Violation{Kind: "oracle", Cut: "is-nil", Input: "declarations", Impl: err.Error(), Oracle: "evaluates"})
+		return
+	}
+	for name, want := range map[string]bool{"p": true, "s": true, "ss": true, "m": true, "mm": true, "f": true, "a": true, "e": true,
+		"q": false, "s2": false, "m2": false, "g": false, "n": false, "z": false, "b": false, "x": false, "s4": false} {
+		c.Rep.Oracle["is-nil"]++
+		if got := vm.Get("main." + name).IsNil(); got != want {
+			c.Rep.Violate(Violation{Kind: "oracle", Cut: "is-nil", Input: "IsNil of main." + name, Impl: fmt.Sprint(got), Oracle: fmt.Sprint(want)})
+		}
+	}
+	for _, v := range []struct {
+		what string
+		v    goat.Value
+		want bool
+	}{{"Nil()", goat.Nil(), true}, {"Int(0)", goat.Int(0), false}, {"String(\"\")", goat.String(""), false}, {"NewSlice(int32, nil)", goat.NewSlice(goat.TypeInt32, nil), false},
+		{"NewMap(string, int32, nil)", goat.NewMap(goat.TypeString, goat.TypeInt32, nil), false}, {"Bool(false)", goat.Bool(false), false}} {
+		c.Rep.Oracle["is-nil"]++
+		if got := v.v.IsNil(); got != v.want {
+			c.Rep.Violate(Violation{Kind: "oracle", Cut: "is-nil", Input: "IsNil of " + v.what, Impl: fmt.Sprint(got), Oracle: fmt.Sprint(v.want)})
+		}
+	}
+}
+
 // c19HookErrors: a failure inside a host-supplied hook that a builtin calls back into (the yield hook behind
 // time.Sleep, VM.Yield from a native of the host) is a nested call: it surfaces as the error of the outer call
 func (c *Ctx) c19HookErrors() {
@@ -655,6 +683,7 @@ func runC19(c *Ctx) error {
 	c.c19Scripts(ns)
 	c.c19ZeroArity()
 	c.c19HookErrors()
+	c.c19Nils()
 	c.c19RoundTrips(nr)
 	return nil
 }
